@@ -343,7 +343,7 @@ Definition conn_step (now : Z) (sb : server * blocking) (ci : Z * list (frame * 
   else serve_batch now s (with_in b (zremove c (b_in b))) c (snd ci) false.
 Definition reap_dead (b : blocking) : blocking :=
   let gone := filter (fun c => negb (is_blocked b c)) (b_dead b) in
-  fold_left (fun b c => with_in b (zremove c (b_in b)))
+  fold_left (fun b c => with_in (with_reg b (unregister_all (b_reg b) c)) (zremove c (b_in b)))
             gone (with_dead b (filter (is_blocked b) (b_dead b))).
 Definition process_conns (now : Z) (s : server) (b : blocking) : server * blocking :=
   match fold_left (conn_step now) (b_in b) (s, b) with
